@@ -1215,9 +1215,9 @@ result_t NumberDataType::parseInput(const string inputStr, unsigned int* parsedV
         if (hasFlag(SIG)) {
           long signedValue = strtol(str, &strEnd, 0);
           if (errno == ERANGE
-          || (m_bitCount != 32 && (signedValue < 0L ? (signedValue < -(1L << (m_bitCount - 1)))
+          || (signedValue < 0L ? (signedValue < -(1L << (m_bitCount - 1)))
             : (signedValue >= (1L << (m_bitCount - 1)))
-          ))) {
+          )) {
             return RESULT_ERR_OUT_OF_RANGE;  // value out of range
           }
           if (signedValue < 0 && m_bitCount != 32) {
